@@ -82,7 +82,7 @@ Definition ex_ops : list op :=
   [ OClearRows 0 1 2 7 [] zimg; OUpdate 0 1 1 2 [(1, 1, 3)] ex_img; OLock 0; OUpdate 0 2 2 2 [] ex_img;
     OUpdate 0 1 3 3 [] ex_img; OUnlock 0 [(1, 3, 3); (2, 2, 3)] (fun y x => 40 + y + x);
     OPixSet 0 1 3 2 5 (-1) (fun y x => 60 + y * x); OPixSet 0 4 4 0 0 5 zimg;
-    OScrollUp 0 1 2 9 [] zimg; OScrollDown 0 1 2 8 [] zimg; OScrollUp 0 2 2 6 [] zimg;
+    OScrollUp 0 1 2 9 [] zimg; OScrollDown 0 1 2 8 [] zimg; OScrollUp 0 2 2 6 [] zimg; OScrollDown 0 2 1 4 [] zimg;
     OUpdate 1 1 1 1 [] ex_img; OCopyFrom 1 0; OPixSet 1 0 1 0 6 3 (fun _ _ => 3); OSetPage 1;
     OSetMode (mkCfg 4 4 2 2 2 2) 1; OClearRows 0 1 2 5 [] zimg; OSetPage 0; OUpdate 0 2 1 2 [] ex_img;
     ORebuild ].
